@@ -11,7 +11,7 @@ ASSUME = ["model: offered = pending items none of whose registered dependencies 
 
 
 # the same lock-step monitor interpreted by Miri
-MIRI = {"quick": ["--items", "2", "--rounds", "4", "--maxstates", "300", "--random", "40"],
+MIRI = {"quick": ["--items", "2", "--rounds", "3", "--maxstates", "120", "--random", "16"],
         "thorough": ["--items", "3", "--rounds", "6", "--maxstates", "40000", "--random", "3000"], "shards": 6, "shard_by_seed": True}
 
 
